@@ -428,6 +428,7 @@ func runSession(c J) J {
 			}
 			return result{Outcome: "error", Stage: "harness", Msg: "unknown entry " + entry}
 		})
+		res = noAddress(srcs[t], res)
 		res.put(ev)
 		if snap {
 			ev["after"] = snapshotEnv(watched)
